@@ -322,6 +322,33 @@ func c03Lookalike(r *vlib.Rand) []byte {
 	}
 }
 
+// c03DegenerateTags: 64-byte tag windows whose first half (the Elligator representative / curve
+// point) is degenerate.
+func c03DegenerateTags(r *vlib.Rand) [][]byte {
+	hexes := []string{
+		"0000000000000000000000000000000000000000000000000000000000000000",
+		"0100000000000000000000000000000000000000000000000000000000000000",
+		"e0eb7a7c3b41b8ae1656e3faf19fc46ada098deb9c32b1fd866205165f49b800",
+		"5f9c95bca3508c24b1d0b1559c83ef5b04445cc4581c8e86d8224eddd09f1157",
+		"ecffffffffffffffffffffffffffffffffffffffffffffffffffffffffffff7f",
+		"edffffffffffffffffffffffffffffffffffffffffffffffffffffffffffff7f",
+		"eeffffffffffffffffffffffffffffffffffffffffffffffffffffffffffff7f",
+		"ffffffffffffffffffffffffffffffffffffffffffffffffffffffffffffffff",
+	}
+	var out [][]byte
+	for _, h := range hexes {
+		rep := make([]byte, 32)
+		fmt.Sscanf(h, "%x", &rep)
+		out = append(out, append(append([]byte(nil), rep...), make([]byte, 32)...))
+		out = append(out, append(append([]byte(nil), rep...), r.Bytes(32)...))
+		// the same with the two padding bits of the representative set
+		rep2 := append([]byte(nil), rep...)
+		rep2[31] |= 0xC0
+		out = append(out, append(rep2, r.Bytes(32)...))
+	}
+	return out
+}
+
 func c03FlipBit(b []byte, bit int) []byte {
 	c := append([]byte(nil), b...)
 	c[bit/8] ^= 1 << uint(bit%8)
@@ -437,6 +464,15 @@ func (g *c03Gen) staticPrefixes(thorough bool) {
 		for _, n := range []int{0, 1, 32, 63, 64, 65, 200, r.Range(66, 9000)} {
 			for _, ph := range []string{c34PhNone, c34PhOne(2 + int(pid)), c34PhMany} {
 				g.probe("static-prefix+garbage", ph, append(append([]byte(nil), st...), r.Bytes(n)...))
+			}
+		}
+		// degenerate tags: all-zero / all-one windows and encodings of low-order curve points, which the
+		// tag obfuscator's key agreement rejects with an error of its own — the station must treat them
+		// like any other garbage (keep reading), also when registrations exist on the phantom
+		for _, tag := range c03DegenerateTags(r) {
+			for _, ph := range []string{c34PhOne(2 + int(pid)), c34PhMany} {
+				g.probe("degenerate-tag", ph, append(append([]byte(nil), st...), tag...))
+				g.probe("degenerate-tag", ph, append(append(append([]byte(nil), st...), tag...), r.Bytes(r.Range(1, 300))...))
 			}
 		}
 		// every proper prefix of the static match: alone, and followed by diverging garbage
